@@ -197,7 +197,10 @@ def flush_discipline(facts, res, fns):
             if v.get("k") == "VarDecl" and "vector" in v.get("t", ""):
                 probe = BufferTypestate(facts, fn, v, res, R)
                 sc = scope_of(body, v)
-                if sc is not None and any(e == "flush" for e, _ in probe.events_in(sc)):
+                evs = probe.events_in(sc) if sc is not None else []
+                # an index buffer is filled locally (push / resize) and handed to a group constructor; a container that is only handed
+                # on (the gathered particle array of rebuild()) is not one
+                if any(e == "flush" for e, _ in evs) and any(e in ("push", "refill") for e, _ in evs):
                     bufs.append((v, sc))
         for v, sc in bufs:
             ts = BufferTypestate(facts, fn, v, res, R)
